@@ -81,11 +81,13 @@ def scenario(cachejit, argon, ks_inputs, thorough, idx, seed=1):
             L.append('DestroyVm v1')
     # the same cache object re-keyed K1 -> K2 -> K1 under two VMs that stay alive and are re-bound with randomx_vm_set_cache
     # (a configuration must not differ in what it remembers of an earlier binding), and fresh VMs on the re-keyed cache
-    L += ['CreateVm v2 CL c1 none v2=0 hard=0 secure=0', 'Hash v2 I1 key=K1', 'CreateVm v3 IL c1 none v2=1 hard=0 secure=0', 'Hash v3 I2 key=K1']
+    L += ['CreateVm v2 CL c1 none v2=0 hard=0 secure=0', 'Hash v2 I1 key=K1', 'CreateVm v3 IL c1 none v2=1 hard=0 secure=0', 'Hash v3 I2 key=K1',
+          'CreateVm v5 IL c1 none v2=0 hard=0 secure=0', 'Hash v5 I1 key=K1', 'CreateVm v6 CL c1 none v2=1 hard=0 secure=0', 'Hash v6 I1 key=K1']      # v5, v6: re-bound only after the LAST re-keying
     L += ['InitCache c1 K2', 'SetCache v2 c1', 'Hash v2 I1 key=K2', 'SetCache v3 c1', 'Hash v3 I2 key=K2',
           'CreateVm v1 CL c1 none v2=0 hard=1 secure=1', 'Hash v1 I1 key=K2', 'DestroyVm v1',
           'CreateVm v1 IL c1 none v2=1 hard=1 secure=0', 'Hash v1 I2 key=K2', 'DestroyVm v1']
-    L += ['InitCache c1 K1', 'SetCache v2 c1', 'Hash v2 I2 key=K1', 'SetCache v3 c1', 'Hash v3 I1 key=K1', 'DestroyVm v2', 'DestroyVm v3']
+    L += ['InitCache c1 K1', 'SetCache v2 c1', 'Hash v2 I2 key=K1', 'SetCache v3 c1', 'Hash v3 I1 key=K1', 'DestroyVm v2', 'DestroyVm v3',
+          'SetCache v5 c1', 'Hash v5 I1 key=K1', 'SetCache v6 c1', 'Hash v6 I2 key=K1', 'DestroyVm v5', 'DestroyVm v6']
     L += ['ReleaseDataset d1', 'ReleaseCache c1']
     return '\n'.join(L) + '\n'
 
@@ -127,7 +129,7 @@ def run():
     scens = []
     for rep in range(reps):
         for idx, (cj, ar) in enumerate(cachecfgs):
-            ks = 2 if (idx == 0 and rep == 0) else (idx + rep * 3 + ck.seed) % nks      # scenario 0: the pair with the empty key
+            ks = 2 if (idx == 0 and rep == 0) else (8 if (idx == 1 and rep == 0) else (idx + rep * 3 + ck.seed) % nks)      # scenario 0: the pair with the empty key; scenario 1: the pair that makes the reciprocal table grow
             iset = (idx + rep + ck.seed) % len(apiscen.INPUTSETS)
             scens.append({'text': scenario(cj, ar, None, ck.thorough, idx + rep, ck.seed), 'ks': ks, 'iset': iset, 'cj': cj, 'ar': ar, 'idx': idx + rep})
     bulk = {}
